@@ -16,7 +16,10 @@ use std::sync::Arc;
 
 struct ReqSocketBackend {
     pub(crate) peers: scc::HashMap<PeerIdentity, Peer>,
-    pub(crate) round_robin: SegQueue<PeerIdentity>,
+    /// One turn per registered connection, tagged with its registration (a turn
+    /// left behind by an earlier connection under the same identity is dropped).
+    pub(crate) round_robin: SegQueue<(PeerIdentity, u64)>,
+    registrations: std::sync::atomic::AtomicU64,
     socket_monitor: Mutex<Option<mpsc::Sender<SocketEvent>>>,
     socket_options: SocketOptions,
 }
@@ -48,7 +51,7 @@ impl SocketSend for ReqSocket {
         // items from queue. So in such case we'll just pop item and skip it if
         // we don't have a matching peer in peers map
         loop {
-            let next_peer_id = match self.backend.round_robin.pop() {
+            let (next_peer_id, registration) = match self.backend.round_robin.pop() {
                 Some(peer) => peer,
                 None => {
                     return Err(ZmqError::ReturnToSender {
@@ -60,7 +63,12 @@ impl SocketSend for ReqSocket {
             #[cfg(feature = "verif-hooks")]
             crate::verif_hooks::yield_point("req.send.after_pop").await;
             if let Some(mut peer) = self.backend.peers.get_async(&next_peer_id).await {
-                self.backend.round_robin.push(next_peer_id.clone());
+                if peer.registration != registration {
+                    continue;
+                }
+                self.backend
+                    .round_robin
+                    .push((next_peer_id.clone(), registration));
                 message.push_front(Bytes::new());
                 let sent = peer.send_queue.send(Message::Message(message)).await;
                 drop(peer);
@@ -132,6 +140,7 @@ impl Socket for ReqSocket {
             backend: Arc::new(ReqSocketBackend {
                 peers: scc::HashMap::new(),
                 round_robin: SegQueue::new(),
+                registrations: std::sync::atomic::AtomicU64::new(0),
                 socket_monitor: Mutex::new(None),
                 socket_options: options,
             }),
@@ -159,11 +168,15 @@ impl Socket for ReqSocket {
 impl MultiPeerBackend for ReqSocketBackend {
     async fn peer_connected(self: Arc<Self>, peer_id: &PeerIdentity, io: FramedIo) {
         let (recv_queue, send_queue) = io.into_parts();
+        let registration = self
+            .registrations
+            .fetch_add(1, std::sync::atomic::Ordering::Relaxed);
         self.peers
             .upsert_async(
                 peer_id.clone(),
                 Peer {
                     _identity: peer_id.clone(),
+                    registration,
                     send_queue,
                     recv_queue,
                 },
@@ -171,7 +184,7 @@ impl MultiPeerBackend for ReqSocketBackend {
             .await;
         #[cfg(feature = "verif-hooks")]
         crate::verif_hooks::yield_point("req.peer_connected.after_upsert").await;
-        self.round_robin.push(peer_id.clone());
+        self.round_robin.push((peer_id.clone(), registration));
     }
 
     fn peer_disconnected(&self, peer_id: &PeerIdentity) {
